@@ -443,7 +443,10 @@ fn run_type<T: Elem>(elem: &str, max_len: usize, p: &Plan, out: &mut Out) {
             mirror: Mirror::Iter(base.iter()),
             base,
         });
-        for n in 0..=len + 1 {
+        // sizes: 0..=len+1 and sizes near the top of usize (size arithmetic must not overflow)
+        let mut sizes: Vec<usize> = (0..=len + 1).collect();
+        sizes.extend_from_slice(&[isize::MAX as usize + 1, usize::MAX - 1, usize::MAX]);
+        for n in sizes {
             do_kind(out, "windows", elem, base, n, p, &|| ks::windows(base, n), &|| Ora {
                 it: Box::new(base.windows(n).map(move |c| view(base, c))),
                 flipped: false,
@@ -486,7 +489,7 @@ fn run_type<T: Elem>(elem: &str, max_len: usize, p: &Plan, out: &mut Out) {
                 8 => array_chunks_n::<T, 8>(out, elem, base, p),
                 9 => array_chunks_n::<T, 9>(out, elem, base, p),
                 10 => array_chunks_n::<T, 10>(out, elem, base, p),
-                _ => unreachable!(),
+                _ => {}
             }
         }
     }
